@@ -163,12 +163,12 @@ func (h *MultiHandler) Accept(msg *Message) {
 
 	if msg.Broadcast {
 		if err := h.verifyBroadcastMessage(msg); err != nil {
-			h.abort(err, msg.From)
+			h.abortOnMessage(err, msg)
 			return
 		}
 	} else {
 		if err := h.verifyMessage(msg); err != nil {
-			h.abort(err, msg.From)
+			h.abortOnMessage(err, msg)
 			return
 		}
 	}
@@ -176,10 +176,33 @@ func (h *MultiHandler) Accept(msg *Message) {
 	h.finalize()
 }
 
+// errBroadcastVerification is returned when a message was sent with a different view of the previous round's broadcasts.
+// Some party equivocated, but it is not known which one: the session is aborted without naming anybody.
+var errBroadcastVerification = errors.New("broadcast verification failed")
+
+// sameBroadcastView checks the hash of the previous round's broadcasts attached to msg against our own.
+func (h *MultiHandler) sameBroadcastView(msg *Message) bool {
+	previousHash := h.broadcastHashes[msg.RoundNumber-1]
+	return previousHash == nil || bytes.Equal(previousHash, msg.BroadcastVerification)
+}
+
+// abortOnMessage aborts after msg failed verification, naming its sender unless the failure is a broadcast mismatch.
+func (h *MultiHandler) abortOnMessage(err error, msg *Message) {
+	if errors.Is(err, errBroadcastVerification) {
+		h.abort(err)
+		return
+	}
+	h.abort(err, msg.From)
+}
+
 func (h *MultiHandler) verifyBroadcastMessage(msg *Message) error {
 	r, ok := h.rounds[msg.RoundNumber]
 	if !ok {
 		return nil
+	}
+	// the content is only meaningful relative to the same view of the previous round
+	if !h.sameBroadcastView(msg) {
+		return errBroadcastVerification
 	}
 
 	// try to convert the raw message into a round.Message
@@ -223,6 +246,11 @@ func (h *MultiHandler) verifyMessage(msg *Message) error {
 		}
 	}
 
+	// the content is only meaningful relative to the same view of the previous round
+	if !h.sameBroadcastView(msg) {
+		return errBroadcastVerification
+	}
+
 	roundMsg, err := getRoundMessage(msg, r)
 	if err != nil {
 		return err
@@ -246,7 +274,7 @@ func (h *MultiHandler) finalize() {
 		return
 	}
 	if !h.checkBroadcastHash() {
-		h.abort(errors.New("broadcast verification failed"))
+		h.abort(errBroadcastVerification)
 		return
 	}
 
@@ -313,7 +341,7 @@ func (h *MultiHandler) finalize() {
 			}
 			// if false, we aborted and so we return
 			if err = h.verifyBroadcastMessage(m); err != nil {
-				h.abort(err, m.From)
+				h.abortOnMessage(err, m)
 				return
 			}
 		}
@@ -325,7 +353,7 @@ func (h *MultiHandler) finalize() {
 			}
 			// if false, we aborted and so we return
 			if err = h.verifyMessage(m); err != nil {
-				h.abort(err, m.From)
+				h.abortOnMessage(err, m)
 				return
 			}
 		}
